@@ -63,6 +63,11 @@ claim("C20",
       "Bounded symbolic model check of per-operation accounting: for each send outcome (reply, peer reject, T3, disconnect, cancel, refused B1, refused B2, write error, fire-and-forget, forward, control) the delta of every counter equals the documented table, the in-flight gauge returns to its entry value, is never negative, is 0 before the write and 1 while waiting; the async drain counts one send per written frame or one async error per failed write; DeliverOwnedFrame counts one receive per data frame.",
       "Trusted: executor + models, z3. Outside: equality with a real peer's counts under concurrent histories; quiescence under real scheduling.")
 
+claim("C05",
+      "Bounded exhaustive exploration, by the symbolic executor, of the interleavings between the supervisor's serial step() and the synchronous commits on the real code: all histories of 4 API actions with interference inside the load-to-write window of every processed event, plus ONE step from an arbitrary supervisor state (inductive). "
+      "Obligations: the state word changes only along E37 edges; each commit takes effect at once and exactly from its source state; processing a commit-backed event later never moves the word (no replay/undo); T7 never moves a Selected word; after Close the word is NotConnected and stays so whatever commits follow; notifications are deduped, chained, never self-transitions, coalescing is counted; when quiescent the last notification equals State().",
+      "Trusted: executor + channel/atomic models (sequentially consistent), z3, rely conditions listed in evidence. One open known finding (stale evSelectAccepted after SelectLost), one fixed (commit after the close latch). Outside: memory model, notifier delivery, run() starved beyond the reconnect backoff.")
+
 for _p, _r in {
     "C03": "check not yet registered in this session (work in progress, see DESIGN.md §3)",
     "C04": "check not yet registered in this session (work in progress, see DESIGN.md §3)",
